@@ -475,7 +475,9 @@ def cut(interp, t, a, base='piece'):
                 continue
             if st.len_must_hold(z3.And(offs[j] <= a, a <= offs[j + 1])):
                 return _cut_inside(interp, t, pieces, offs, j, a, base)
-    if decs and len(decs[-1]) > 1 and not st.no_fork:
+    if decs and len(decs[-1]) > 1 and not st.no_fork and not getattr(interp, 'assuming', 0):
+        # (Not while a predicate is being assumed: what it says about a string that was cut differently
+        # before is just taken as a fact; a caller that needs the two views aligned cuts again later.)
         # The offset is not known to be at a boundary or inside one particular piece: case split on where it
         # falls (rather than a fresh split of t that is unrelated to its pieces: word equations between
         # differently cut concatenations are what the solvers get lost in).
